@@ -25,7 +25,7 @@ LEVEL = "exploration"
 RULE = (
     "Engine-A runs (completed / cancelled at a seeded step; options with None-able fields set to None; drives as dict, closure, "
     "callable object, Parameter, composite/time-dependent tree; devices with/without holes/terminals/probes, three unit systems) "
-    "followed by a seeded sequence of storage operations {reload, copy, device to file +/- mesh, mesh to group "
+    "followed by a seeded sequence of storage operations {reload, copy, copy after the output file is gone, device to file +/- mesh, mesh to group "
     "+/- compress, pickle device, pickle parameters, use reloaded solution as seed}; non-trivial = at least 3 storage operations "
     "compared on a run with >= 2 frames; distinct = scenario digests"
 )
@@ -33,7 +33,7 @@ BUDGET = {"quick": {"runs": 300, "chunk": 6}, "thorough": {"runs": 30000, "chunk
 COMPONENTS = {"real": ["Solution.to_hdf5/from_hdf5", "Device/Polygon/Layer/Mesh/EdgeMesh (de)serialisation", "Parameter/CompositeParameter pickling", "SolverOptions round trip", "seeding a run from a reloaded solution"], "stub": ["wall clock (simulated, so time_created is reproducible)"]}
 ASSUMPTIONS = ["Only state produced by simulated runs is round-tripped; the quantifier over all devices/option combinations/expression trees is sampled, not covered."]
 
-OPS = ["reload", "reload-step", "copy", "device-h5", "device-h5-nomesh", "mesh-h5", "mesh-h5-compressed", "pickle-device", "pickle-params", "seed-run", "equality"]
+OPS = ["reload", "reload-step", "copy", "orphan-copy", "device-h5", "device-h5-nomesh", "mesh-h5", "mesh-h5-compressed", "pickle-device", "pickle-params", "seed-run", "equality"]
 MESH_ARRAYS = ("sites", "elements", "boundary_indices", "areas", "dual_sites")
 EDGE_ARRAYS = ("edges", "centers", "boundary_edge_indices", "directions", "edge_lengths", "dual_edge_lengths")
 
@@ -340,6 +340,33 @@ def run(scn):
                         if re.device.mesh is None:
                             diffs.append("device of a solution saved without mesh has no mesh although the file's mesh group exists")
                         report(op, diffs)
+                elif op == "orphan-copy":
+                    # the Solution object outlives its output file (a run without output path whose
+                    # temporary directory is gone): saving writes the state held in memory
+                    held = sol.tdgl_data
+                    held_dyn = sol.dynamics
+                    hidden = path + ".hidden"
+                    os.rename(path, hidden)
+                    try:
+                        p2 = os.path.join(work, f"orphan{j}.h5")
+                        sol.to_hdf5(p2)
+                        re = tdgl.Solution.from_hdf5(p2)
+                        diffs = cmp_options(sol.options, re.options) + cmp_device(sol.device, re.device)
+                        got = re.tdgl_data
+                        for name in ("psi", "mu", "supercurrent", "normal_current", "applied_vector_potential", "induced_vector_potential", "epsilon"):
+                            r = cmp_arrays(getattr(held, name), getattr(got, name), f"held step {name}")
+                            if r:
+                                diffs.append(r)
+                        if dict(held.state) != dict(got.state):
+                            diffs.append(f"held step state {dict(held.state)} != {dict(got.state)}")
+                        for name in ("dt", "time", "mu", "theta", "screening_iterations"):
+                            r = cmp_arrays(getattr(held_dyn, name), getattr(re.dynamics, name), "dynamics." + name)
+                            if r:
+                                diffs.append(r)
+                        diffs += cmp_eval(orig_eval, eval_drive(re, re.device, T))
+                        report(op, diffs)
+                    finally:
+                        os.rename(hidden, path)
                 elif op in ("device-h5", "device-h5-nomesh"):
                     p2 = os.path.join(work, f"dev{j}.h5")
                     sol.device.to_hdf5(p2, save_mesh=(op == "device-h5"))
